@@ -213,6 +213,31 @@ def c15():
         case(15, "to_dict keeps an undefined enum number", False)
 
 
+@dataclass(eq=False, repr=False)
+class Maps(Message):
+    mb: Dict[str, bytes] = betterproto.map_field(1, betterproto.TYPE_STRING, betterproto.TYPE_BYTES)
+    mi: Dict[str, int] = betterproto.map_field(2, betterproto.TYPE_STRING, betterproto.TYPE_INT64)
+    wi: Optional[int] = betterproto.message_field(3, wraps=betterproto.TYPE_INT64)
+    wb: Optional[bytes] = betterproto.message_field(4, wraps=betterproto.TYPE_BYTES)
+
+
+def c16():
+    res = {}
+    try:
+        Maps(mb={"k": b"\x00"}).to_json()
+        res["map<string,bytes>"] = True
+    except TypeError:
+        res["map<string,bytes>"] = False
+    res["map<string,int64> as string"] = Maps(mi={"k": 2**60}).to_dict().get("mi") == {"k": str(2**60)}
+    res["Int64Value as string"] = Maps(wi=2**60).to_dict().get("wi") == str(2**60)
+    try:
+        Maps(wb=b"\x00").to_json()
+        res["BytesValue"] = True
+    except TypeError:
+        res["BytesValue"] = False
+    case(16, f"map values / wrappers follow the JSON mapping {res}", all(res.values()))
+
+
 def c18():
     from betterproto.compile.naming import pythonize_class_name
     import keyword
@@ -246,7 +271,7 @@ def c21():
 
 
 if __name__ == "__main__":
-    which = [int(x) for x in sys.argv[1:]] or [1, 2, 3, 4, 5, 6, 7, 8, 9, 10, 11, 12, 13, 14, 15, 18, 19, 20, 21]
+    which = [int(x) for x in sys.argv[1:]] or [1, 2, 3, 4, 5, 6, 7, 8, 9, 10, 11, 12, 13, 14, 15, 16, 18, 19, 20, 21]
     for n in which:
         try:
             globals()[f"c{n}"]()
